@@ -8,7 +8,6 @@ package c13
 import (
 	"bytes"
 	"fmt"
-	"os"
 	"sort"
 	"sync"
 	"testing"
@@ -28,7 +27,7 @@ type round struct {
 	Idx       int
 	N         int    // contenders
 	Cleans    []bool // per contender
-	OldState  string // none idle mid-handshake dying blocked-in-send
+	OldState  string // none idle mid-handshake token-wait dying blocked-in-send
 	OldClean  bool
 	Traffic   bool
 	Perturb   bool
@@ -49,6 +48,14 @@ func run(r *h.Run, rd round) {
 		b.Mon.Perturb = r.Rand(fmt.Sprintf("c13-perturb-%d", rd.Idx))
 	}
 	b.Mon.Inner.KillTimeout = 30 * time.Second
+	// the traffic pump runs during the whole takeover, while nobody dequeues; a
+	// session queue of the default size (100) overflows on a fast machine and
+	// overflow is documented as dropping messages - keep the round inside the
+	// capacity the property speaks about
+	b.Mon.Inner.SessionQueueSize = 1 << 14
+	if rd.OldState == "token-wait" {
+		b.Mon.Inner.ClientParallelPublishes = 3
+	}
 	blocked := rd.OldState == "blocked-in-send"
 	var gate chan struct{}
 	released := false
@@ -172,6 +179,18 @@ func run(r *h.Run, rd round) {
 				r.Inconclusive("old PUBREC")
 				return
 			}
+		case "token-wait":
+			// all publish tokens of the old connection are bound in open QoS 2
+			// handshakes; one more publish parks its processor waiting for a token
+			for id := packet.ID(20); id < 23; id++ {
+				_ = old.Send(&packet.Publish{ID: id, Message: packet.Message{Topic: "other/y", QOS: 2, Payload: []byte("h")}})
+				if _, err := bh.AwaitAck(old, packet.PUBREC, id); err != nil {
+					r.Inconclusive("old PUBREC")
+					return
+				}
+			}
+			_ = old.Send(&packet.Publish{ID: 30, Message: packet.Message{Topic: "other/y", QOS: 1, Payload: []byte("parked")}})
+			time.Sleep(2 * time.Millisecond) // shaping: let the processor reach the token wait
 		case "blocked-in-send":
 			// the peer stops reading; big messages fill the bounded wire until the broker's send blocks
 			gate = make(chan struct{})
@@ -431,14 +450,17 @@ func boolInt(b bool) int {
 
 func TestCheck(t *testing.T) {
 	r := h.New("C13", "exploration")
-	r.Rule("rounds of 2-8 simultaneous CONNECTs with one client id (clean/unclean mixed, started together or staggered by 150us) against an old connection that is absent / idle / mid QoS 2 handshake / dying by itself at the same moment / blocked in a send (bounded wire, peer not reading), with a publisher pumping numbered QoS 1 messages towards the id and backend-boundary perturbation; monitors: Setup/Terminate interval bookkeeping, CONNACK pre-send assertion on Closed() of every older client of the id, PINGREQ liveness probe of all contenders (exactly one survivor), session-present replay in recorded Setup order, Terminate counts, displaced will, backend bookkeeping snapshot, no loss / no second non-duplicate delivery when all parties are persistent. Non-trivial = rounds in which >= 2 Setup calls for the id succeeded; distinct by round parameters; distinct Setup orders are counted separately")
+	r.Rule("rounds of 2-8 simultaneous CONNECTs with one client id (clean/unclean mixed, started together or staggered by 150us) against an old connection that is absent / idle / mid QoS 2 handshake / parked waiting for a publish token / dying by itself at the same moment / blocked in a send (bounded wire, peer not reading), with a publisher pumping numbered QoS 1 messages towards the id and backend-boundary perturbation; monitors: Setup/Terminate interval bookkeeping, CONNACK pre-send assertion on Closed() of every older client of the id, PINGREQ liveness probe of all contenders (exactly one survivor), session-present replay in recorded Setup order, Terminate counts, displaced will, backend bookkeeping snapshot, no loss / no second non-duplicate delivery when all parties are persistent. Non-trivial = rounds in which >= 2 Setup calls for the id succeeded; distinct by round parameters; distinct Setup orders are counted separately")
 	r.Assume("the blocked-in-send variant is the recorded known finding (takeover deadlock); its detection uses a 1.5 s bound confirmed by two goroutine profiles")
 	rng := r.Rand("c13")
 	n := r.Pick(1200, 25000)
 	var rounds []round
-	states := []string{"none", "idle", "idle", "mid-handshake", "dying", "idle"}
+	states := []string{"none", "idle", "idle", "mid-handshake", "dying", "idle", "token-wait"}
 	for i := 0; i < n; i++ {
 		rd := round{Idx: i, N: 2 + rng.Intn(7), OldState: states[rng.Intn(len(states))], OldClean: rng.Intn(3) == 0, Traffic: rng.Intn(2) == 0, Perturb: rng.Intn(2) == 0, Staggered: rng.Intn(3) == 0}
+		if rd.OldState == "token-wait" {
+			rd.Traffic = false // a stuck takeover must show as "no progress at all"
+		}
 		allUnclean := rng.Intn(3) == 0
 		for k := 0; k < rd.N; k++ {
 			rd.Cleans = append(rd.Cleans, !allUnclean && rng.Intn(2) == 0)
@@ -454,5 +476,5 @@ func TestCheck(t *testing.T) {
 	}
 	h.Parallel(len(rounds), 8, func(i int) { run(r, rounds[i]) })
 	r.Count("rounds", int64(len(rounds)))
-	os.Exit(r.Finish(50))
+	h.Exit(r.Finish(50))
 }
